@@ -13,8 +13,11 @@
      reset_guarded : whether retryState.reset() only releases a reservation it holds
      direct_clears_again : whether processError's direct-response branch cancels a pending re-match / re-choose-host
      direct_cancels_retry : whether that branch releases the retry reservation and cancels a retry set up in the same call
+     direct_resets_upstream : whether that branch resets the upstream stream of the attempt given up for the local reply
      put_resets_cursor : whether streamfilter.PutStreamFilterChain zeroes the filter cursors before the chain object is pooled
-     retry_checks_direct : whether doRetry returns without sending when a local reply became pending during the retry interval *)
+     retry_checks_direct : whether doRetry returns without sending when a local reply became pending during the retry interval
+     retry_refinalizes : whether doRetry runs the route's FinalizeRequestHeaders again
+     timers_reset_stream : whether the per-try / global timer callbacks reset the upstream stream themselves *)
 From Coq Require Import List ZArith Bool Arith Lia.
 From RecordUpdate Require Import RecordSet.
 Import ListNotations RecordSetNotations.
@@ -36,8 +39,9 @@ Record sfilter := { sf_verdicts : list verdict (* VContinue | VStop | VTerm *) }
 
 Inductive route := RouteNone | RouteDirect (code : Z) (body : bool) | RouteNoCluster | RouteForward.
 
-Record srcp := { loop_bound : nat; min_budget : nat; reset_guarded : bool; direct_clears_again : bool; direct_cancels_retry : bool;
-  put_resets_cursor : bool; retry_checks_direct : bool; reason_code : reason -> Z }.
+Record srcp := { loop_bound : nat; min_budget : nat; reset_guarded : bool; direct_clears_again : bool; direct_cancels_retry : bool; direct_resets_upstream : bool;
+  put_resets_cursor : bool; retry_checks_direct : bool; retry_refinalizes : bool; timers_reset_stream : bool;
+  reason_code : reason -> Z }.
 
 Record cfg := {
   c_oneway : bool; c_data : bool; c_trailers : bool;
@@ -54,7 +58,8 @@ Record cfg := {
   <c_oneway; c_data; c_trailers; c_route; c_nhosts; c_retry_on; c_num_retries; c_codes; c_try_timeout; c_max_retries; c_recv; c_send;
    c_pool; c_delay>.
 #[export] Instance eta_srcp : Settable _ := settable! Build_srcp
-  <loop_bound; min_budget; reset_guarded; direct_clears_again; direct_cancels_retry; put_resets_cursor; retry_checks_direct; reason_code>.
+  <loop_bound; min_budget; reset_guarded; direct_clears_again; direct_cancels_retry; direct_resets_upstream; put_resets_cursor; retry_checks_direct; retry_refinalizes;
+   timers_reset_stream; reason_code>.
 
 Inductive rkind := KUp | KHijack | KDirect.
 Record resp := { r_kind : rkind; r_code : Z; r_data : bool; r_trailers : bool }.
@@ -71,7 +76,7 @@ Inductive step := Worker | Env (e : ev).
 
 Inductive out :=
   | ODownHdr (e : bool) (k : rkind) (code : Z) | ODownData (e : bool) | ODownTrl | ODownReset
-  | OChoose | OUpNew (k : nat) (r : poolres) | OUpHdr (k : nat) (e : bool) | OUpData (k : nat) (e : bool) | OUpTrl (k : nat)
+  | OChoose | OUpNew (k : nat) (r : poolres) | OUpHdr (k : nat) (e : bool) (nfin : nat) | OLeak (k : nat) | OUpData (k : nat) (e : bool) | OUpTrl (k : nat)
   | OUpReset (k : nat)
   | ORes (d : Z) | OGauge (d : Z)
   | OFilterRecv (i : nat) (p : nat) (v : verdict) | OFilterSend (i : nat) (v : verdict)
@@ -88,6 +93,7 @@ Record st := {
   has_upreq : bool; up_sender : bool; up_alive : bool; nnew : nat; cur : nat;
   rsp : option resp; route_matched : bool;
   rcursor : nat; scursor : nat; fcalls : list nat; scalls : list nat; delayed : list phase;
+  nfin : nat;           (* how many times the route's FinalizeRequestHeaders ran on the request *)
   rc : Z;
   (* ghost flags (never read by the transitions): which of the listed defect patterns occurred *)
   global_ever : bool;   (* the global timer was armed at some point *)
@@ -99,7 +105,7 @@ Record st := {
 #[export] Instance eta_st : Settable _ := settable! Build_st
   <ph; outer; wdone; sleeping; woken; received; cleaned; up_reset; down_reset; direct; resp_started; recv_done; req_sent;
    process_done; setup_retry; again; rreason; notify; try_armed; global_armed; retry; reserved; has_upreq; up_sender; up_alive;
-   nnew; cur; rsp; route_matched; rcursor; scursor; fcalls; scalls; delayed; rc; global_ever; x_loop; x_upf; x_nog>.
+   nnew; cur; rsp; route_matched; rcursor; scursor; fcalls; scalls; delayed; nfin; rc; global_ever; x_loop; x_upf; x_nog>.
 
 Definition init_st (rc0 : Z) : st :=
   {| ph := PInit; outer := 0; wdone := false; sleeping := false; woken := false;
@@ -108,7 +114,7 @@ Definition init_st (rc0 : Z) : st :=
      setup_retry := false; again := PInit; rreason := RsEmpty; notify := false;
      try_armed := None; global_armed := false; retry := None; reserved := false;
      has_upreq := false; up_sender := false; up_alive := false; nnew := 0; cur := 0;
-     rsp := None; route_matched := false; rcursor := 0; scursor := 0; fcalls := []; scalls := []; delayed := []; rc := rc0;
+     rsp := None; route_matched := false; rcursor := 0; scursor := 0; fcalls := []; scalls := []; delayed := []; nfin := 0; rc := rc0;
      global_ever := false; x_loop := false; x_upf := false; x_nog := false |}.
 
 (* The filter chain object of a finished stream goes back to a pool (streamfilter.PutStreamFilterChain) and is handed to a later
@@ -273,7 +279,8 @@ Definition process_error (s : st) : st * list out * phase * bool :=
         let '(s1r, o1r) :=
           if direct_cancels_retry src
           then (when (fun s => match retry s with Some _ => true | None => false end) rs_reset ;;
-                upd (fun s => s <| setup_retry := false |>)) s1
+                upd (fun s => s <| setup_retry := false |>) ;;
+                (if direct_resets_upstream src then when has_upreq upreq_reset_stream else ret)) s1
           else (s1, []) in
         let s2 := s1r <| direct := false |> <| retry := None |>
                       <| again := if direct_clears_again src then PInit else again s1r |> in
@@ -360,7 +367,7 @@ Definition up_append_headers (e : bool) : A :=
        let k := nnew s in
        let s1 := s <| nnew := S k |> <| cur := k |> in
        match pool_at k with
-       | PoolOk => (s1 <| up_sender := true |> <| up_alive := true |>, [OUpNew k PoolOk; OUpHdr k e])
+       | PoolOk => (s1 <| up_sender := true |> <| up_alive := true |>, [OUpNew k PoolOk; OUpHdr k e (nfin s)])
        | PoolOverflow => let '(s2, o2) := on_up_reset RsOverflow s1 in (s2, OUpNew k PoolOverflow :: o2)
        | PoolConnFail => let '(s2, o2) := on_up_reset RsConnFailed s1 in (s2, OUpNew k PoolConnFail :: o2)
        end).
@@ -394,8 +401,9 @@ Definition choose_host : A :=
                  upd (fun s => s <| retry := Some budget |> <| reserved := false |> <| has_upreq := true |>)) s
          end.
 
+(* receiveHeaders: FinalizeRequestHeaders, then the first attempt *)
 Definition receive_headers : A :=
-  up_append_headers no_body ;; (if no_body then request_sent else ret).
+  upd (fun s => s <| nfin := S (nfin s) |>) ;; up_append_headers no_body ;; (if no_body then request_sent else ret).
 Definition receive_data : A :=
   ite process_done_b ret
     (upd (fun s => s <| recv_done := negb (c_trailers c) |>) ;;
@@ -411,6 +419,8 @@ Definition do_retry_send : A :=
   if (c_nhosts c =? 0)%nat then
     when has_upreq (upd (fun s => s <| setup_retry := false |>)) ;; hijack 502 false ;; clean_up
   else
+    when up_alive (fun s => (s, [OLeak (cur s)])) ;;      (* the previous attempt's stream is abandoned while still open *)
+    (if retry_refinalizes src then upd (fun s => s <| nfin := S (nfin s) |>) else ret) ;;
     upd (fun s => s <| has_upreq := true |> <| up_sender := false |> <| up_alive := false |> <| setup_retry := false |>
                      <| x_nog := x_nog s || (negb (global_armed s) && negb (c_oneway c)) |>) ;;
     up_append_headers no_body ;;
@@ -541,7 +551,8 @@ Definition env_step (e : ev) (s : st) : st * list out :=
         else if received s1 then (s1, [])
         else
           let s2 := s1 <| received := true |> in
-          if resp_started s2 then (s2, []) else (upreq_reset_stream ;; on_up_reset RsPerTryTimeout) s2
+          if resp_started s2 then (s2, [])
+          else ((if timers_reset_stream src then upreq_reset_stream else ret) ;; on_up_reset RsPerTryTimeout) s2
       else (s, [])
     | None => (s, [])
     end
@@ -552,7 +563,8 @@ Definition env_step (e : ev) (s : st) : st * list out :=
       else if received s1 then (s1, [])
       else
         let s2 := s1 <| received := true |> in
-        if has_upreq s2 then (upreq_reset_stream ;; on_up_reset RsGlobalTimeout) s2 else (s2, [])
+        if has_upreq s2 then ((if timers_reset_stream src then upreq_reset_stream else ret) ;; on_up_reset RsGlobalTimeout) s2
+        else (s2, [])
     else (s, [])
   | EvDownReset why => on_down_reset why s
   | EvTerminate code =>
